@@ -109,3 +109,106 @@ func clipStr(s string, n int) string {
 	}
 	return s
 }
+
+// ---- the transport reports a timeout while a record is being read ----------------------------------
+//
+// A read deadline that fires in the middle of a record is a temporary error: the application extends
+// the deadline and reads again, and the stream must continue exactly where it was - no byte lost,
+// repeated or delivered out of place. timeoutConn makes the k-th Read of the library endpoint return
+// only a part of what is available and the next one fail with a timeout; k sweeps the whole session
+// (in the handshake phase a timeout simply fails the handshake).
+
+type timeoutErr struct{}
+
+func (timeoutErr) Error() string   { return "injected i/o timeout" }
+func (timeoutErr) Timeout() bool   { return true }
+func (timeoutErr) Temporary() bool { return true }
+
+type timeoutConn struct {
+	net.Conn
+	at    int
+	reads int
+	fired bool
+}
+
+func (t *timeoutConn) Read(p []byte) (int, error) {
+	t.reads++
+	if t.reads == t.at && len(p) > 1 {
+		return t.Conn.Read(p[:1+len(p)/3])
+	}
+	if t.reads == t.at+1 {
+		t.fired = true
+		return 0, timeoutErr{}
+	}
+	return t.Conn.Read(p)
+}
+
+func readTimeoutUnit(suite uint16, libIsClient bool) harness.Unit {
+	return harness.Unit{Name: fmt.Sprintf("transport-read-timeout/%04x/library-client=%v", suite, libIsClient), Run: func(c *harness.Ctx) {
+		sizes := []int{1, 100, 3000, 40000, 7, 16384, 5}
+		var want []byte
+		var payloads [][]byte
+		for i, n := range sizes {
+			w := pu.Msg(80+i, n)
+			payloads = append(payloads, w)
+			want = append(want, w...)
+		}
+		inData := 0
+		for at := 1; at <= 60; at++ {
+			data := func(q *gmref.Peer) error {
+				for _, w := range payloads {
+					for off := 0; off < len(w); off += 16384 {
+						end := off + 16384
+						if end > len(w) {
+							end = len(w)
+						}
+						if err := q.WriteRecord(gmref.RecApp, w[off:end]); err != nil {
+							return err
+						}
+					}
+				}
+				return q.CloseNotify()
+			}
+			tc := &timeoutConn{at: at}
+			app := tlsk.App{Expect: 0, RetryTemporary: true, ReadBuf: 5000, Wrap: func(nc net.Conn) net.Conn { tc.Conn = nc; return tc }}
+			o := tlsk.RunLibVsRef(libConfig(suite, libIsClient), libIsClient, app, refIdentity(suite, libIsClient), 58, refSetup(suite), &gmref.Script{Data: data}, nil)
+			tag := fmt.Sprintf("suite=%04x library-client=%v; Read %d of the transport is short and Read %d times out; the application reads again", suite, libIsClient, at, at+1)
+			c.Add("executions", 1)
+			c.Add("transitions", 1)
+			c.DistinctS("states", tag)
+			if o.Lib.Panic != nil || o.LibStuck || o.Horizon {
+				c.Violate(fmt.Sprintf("transport-read-timeout:crash-or-hang:%04x", suite), fmt.Sprintf("[%s] %s\n%s", tag, o.Describe(), clipStr(o.Lib.Stack, 1200)), nil, tag)
+				continue
+			}
+			c.DistinctS("outcomes", fmt.Sprintf("%v/%v/%d/%d", o.Lib.Complete, tc.fired, len(o.Lib.Read), o.Lib.TemporaryErrs))
+			if !o.Lib.Complete {
+				if o.Lib.HandshakeErr == nil || len(o.Lib.Read) > 0 {
+					c.Violate(fmt.Sprintf("transport-read-timeout:incomplete-without-error:%04x", suite), fmt.Sprintf("[%s] %s", tag, o.Describe()), nil, tag)
+				}
+				continue
+			}
+			if tc.fired {
+				inData++
+			}
+			if !bytes.Equal(o.Lib.Read, want) {
+				c.Violate(fmt.Sprintf("transport-read-timeout:stream-differs:%04x", suite), fmt.Sprintf("[%s] after the timeout the library delivered %d bytes (first difference at %d), the peer wrote %d; readErr=%v", tag, len(o.Lib.Read), firstDiff(o.Lib.Read, want), len(want), o.Lib.ReadErr), nil, tag)
+			}
+		}
+		if inData == 0 {
+			c.Violate("transport-read-timeout:vacuous", "no timeout landed in the data phase", nil, nil)
+		}
+		c.Sample(fmt.Sprintf("short read + timeout at transport Read 1..60 (%d landed in the data phase); 7 payloads in 9 records", inData))
+	}}
+}
+
+func firstDiff(a, b []byte) int {
+	for i := 0; i < len(a) && i < len(b); i++ {
+		if a[i] != b[i] {
+			return i
+		}
+	}
+	if len(a) < len(b) {
+		return len(a)
+	}
+	return len(b)
+}
